@@ -124,7 +124,7 @@ def LS(S):
 c = contract("server.Mailbox.add_listener", cls="Mailbox",
              params={"handle": "ref:WebSocketServer", "send_f": "callback:send:handle", "stop_f": "callback:stop:handle"},
              result="list:sm@rowlist:ch.messages", modifies=["heap.Mailbox._listeners"],
-             tags=["C01", "C02", "C05", "C08", "C12", "C13", "C14", "C17"])
+             tags=["C01", "C02", "C05", "C08", "C12", "C13", "C14", "C15", "C17"])
 
 
 @c.ensures
@@ -136,7 +136,7 @@ def _(c):
 
 
 c = contract("server.Mailbox.remove_listener", cls="Mailbox", params={"handle": "ref:WebSocketServer"},
-             modifies=["heap.Mailbox._listeners"], tags=["C01", "C02", "C05", "C08", "C12", "C13", "C14", "C17"])
+             modifies=["heap.Mailbox._listeners"], tags=["C01", "C02", "C05", "C08", "C12", "C13", "C14", "C15", "C17"])
 
 
 @c.ensures
